@@ -104,6 +104,18 @@ def marshal(
         try:
             # send next byte into processor
             event = processor.send(byte)
+        except StopIteration as error:
+            # the processor is done with this very byte (it was padding of a size constraint)
+            _, obj = error.value
+            bytes_remaining = bytes(buffer_iter)
+            if bytes_remaining:
+                error = InputStreamSuperfluousBytesError(
+                    bytes_remaining=bytes_remaining, command_code=command_code
+                )
+                if abort_on_error:
+                    raise error
+                yield WarningEvent(error=error)
+            return obj
         except ConstraintViolatedError as error:
             # TODO code is redundant
             error.set_bytes_remaining(buffer_iter)
